@@ -16,13 +16,32 @@ OBJ_REC = ("object_s", "object_t")
 from core import rel  # noqa: E402
 
 
+# locals of the function being looked at that only ever hold one global (object_t *loader = current_object): {local id: global}
+CUR_ALIAS = {}
+
+
+def aliases_of(f):
+    out = {}
+    for b, i, n in f.nodes():
+        pairs = []
+        if n.get("k") == "Asg" and n.get("op") == "=" and strip(n["L"]).get("k") == "Ref" and strip(n["L"]).get("d") == "local":
+            pairs.append((strip(n["L"]).get("id"), n["R"]))
+        elif n.get("k") == "Decl":
+            pairs += [(v.get("id"), v["init"]) for v in n.get("vars", ()) if isinstance(v.get("init"), dict)]
+        for vid, r in pairs:
+            r0 = strip(r)
+            val = r0.get("n") if r0.get("k") == "Ref" and r0.get("d") in ("global", "static") else False
+            out[vid] = val if (vid not in out or out[vid] == val) else False
+    return {k: v for k, v in out.items() if v}
+
+
 def is_field(e, field, base_name=None):
     e = strip(e)
     if not (isinstance(e, dict) and e.get("k") == "Mem" and e.get("f") == field and e.get("rec") in OBJ_REC):
         return False
     if base_name is not None:
         b = strip(e["b"])
-        return b.get("k") == "Ref" and b.get("n") == base_name
+        return b.get("k") == "Ref" and (b.get("n") == base_name or (b.get("d") == "local" and CUR_ALIAS.get(b.get("id")) == base_name))
     return True
 
 
@@ -72,7 +91,7 @@ def check(run, prog, tier):
 
     funcs = list(prog.functions())
     byname = prog.by_name()
-    for nm in ("give_uid_to_object", "f_seteuid", "f_export_uid", "load_object", "clone_object", "get_empty_object", "init_object"):
+    for nm in ("give_uid_to_object", "f_seteuid", "f_export_uid", "load_object", "clone_object", "get_empty_object"):   # init_object() is a trivial wrapper that may be inlined
         run.need(byname.get(nm), "function " + nm)
 
     # ---- C20-a enumerate writers
@@ -109,6 +128,8 @@ def check(run, prog, tier):
         return "store:%s:%s:%s:%d" % (rel(f.file), f.name, fld, o)
 
     for f, b, n, fld, o in stores:
+        CUR_ALIAS.clear()
+        CUR_ALIAS.update(aliases_of(f))
         inst = site(f, n, fld, o)
         tgt = base_name(n["L"])
         rhs = strip(n["R"])
@@ -280,12 +301,14 @@ def check(run, prog, tier):
                g.file, n.get("l"), g.name, what="uid assigned without consulting the master's creator_file")
     gcallers = sorted({f.name for f in funcs for _ in f.calls("give_uid_to_object")})
     icallers = sorted({f.name for f in funcs for _ in f.calls("init_object")})
-    run.ob("C20-c", "callers", gcallers == ["init_object"] and set(icallers) <= {"load_object", "clone_object"},
+    # give_uid_to_object() is reached from load_object()/clone_object() only, directly or through the wrapper init_object()
+    direct = [x for x in gcallers if x != "init_object"]
+    run.ob("C20-c", "callers", bool(gcallers) and set(direct) <= {"load_object", "clone_object"} and set(icallers) <= {"load_object", "clone_object"} and ("init_object" not in gcallers or bool(icallers)),
            "give_uid_to_object <- %s <- %s" % (gcallers, icallers), g.file, g.line, g.name,
            what="uid assignment reachable from %s / %s" % (gcallers, icallers))
-    for fname in icallers:
+    for fname in sorted(set(icallers) | set(direct)):
         f = byname[fname][0]
-        for j, (b, i, n) in enumerate(f.calls("init_object")):
+        for j, (b, i, n) in enumerate([x for x in f.calls() if x[2].get("fn") in ("init_object", "give_uid_to_object")]):
             a0 = strip(n["args"][0])
             fresh = False
             if a0.get("k") == "Ref" and a0.get("d") == "local":
